@@ -43,16 +43,7 @@ func runRawCase(rc *rawCase) *rawOut {
 	hCount, hArgSeen = 0, nil
 	hMu.Unlock()
 	ps := secure.NewPlugin(srvCode, c.ks)
-	var srv erpc.Peer
-	if c.place == "global" {
-		srv = erpc.NewPeer(erpc.PeerConfig{}, ps)
-		srv.RouteCall(new(Ctl))
-		srv.RoutePush(new(Psh))
-	} else {
-		srv = erpc.NewPeer(erpc.PeerConfig{})
-		srv.RouteCall(new(Ctl), ps)
-		srv.RoutePush(new(Psh), ps)
-	}
+	srv := newServer(c.place, ps)
 	defer srv.Close()
 	cc, sc := TCPPair()
 	tap := &tapConn{Conn: cc}
@@ -63,7 +54,7 @@ func runRawCase(rc *rawCase) *rawOut {
 		Must(fmt.Errorf("could not set up the server session"))
 	}
 	rp := NewRawPeer(tap)
-	path := "/" + map[string]string{"call": "ctl", "push": "psh"}[c.kind] + "/" + c.shape
+	path := pathOf(c)
 	mtype := erpc.TypeCall
 	if c.kind == "push" {
 		mtype = erpc.TypePush
@@ -222,7 +213,7 @@ func vrawcase(rc *rawCase) string {
 	ctRes := goutil.AESEncrypt([]byte(c.ks), ptRes)
 	wrapRes := VL(VB(verS), VB(ctRes), VB(marshalWith(id, &secure.Encrypt{Cipherversion: string(verS), Ciphertext: string(ctRes)})))
 	return VL(VS("raw"), VS(c.kind), VB(verS), vmarkerIn(c.xSecure), vmarkerIn(c.xAccept), vmarkerIn(handlerMarker(c.enforce)),
-		VBool(c.handlerOK), VB(rc.body), VB(ptRes), VB(marshalWith(id, zeroA)), unwrapEntry, plainDec, decEntry, VB(ctRes), wrapRes)
+		VL(VS(c.hkind), VS(c.hret)), VB(rc.body), VB(ptRes), VB(marshalWith(id, zeroA)), unwrapEntry, plainDec, decEntry, VB(ctRes), wrapRes)
 }
 
 func runRaw(cfg *RunCfg) {
@@ -234,7 +225,7 @@ func runRaw(cfg *RunCfg) {
 		rc := genRawCase(cfg)
 		c := &rc.c
 		o := runRawCase(rc)
-		human := Fmt("raw kind=%s shape=%s place=%s X-Secure=%q X-Accept-Secure=%q body=%s handler-marker=%q handler-ok=%v", c.kind, c.shape, c.place, c.xSecure, c.xAccept, rc.bodyKind, c.enforce, c.handlerOK)
+		human := Fmt("raw kind=%s shape=%s place=%s X-Secure=%q X-Accept-Secure=%q body=%s handler-marker=%q handler=%s/%s", c.kind, c.shape, c.place, c.xSecure, c.xAccept, rc.bodyKind, c.enforce, c.hkind, c.hret)
 		st.Count("raw-body:" + rc.bodyKind)
 		st.Count("raw-x-secure:" + c.xSecure)
 		st.Count("raw-status:" + statusSym(o.code))
@@ -248,7 +239,7 @@ func runRaw(cfg *RunCfg) {
 				st.Fail(i, "wrong-key-ok-status", "envelope made with another key answered with OK", human)
 			}
 		}
-		if c.kind == "call" && c.handlerOK && o.hCount > 0 && o.inHasRes {
+		if c.kind == "call" && c.handlerOK() && o.hCount > 0 && o.inHasRes {
 			wantEnc := c.xSecure == "true" || c.xAccept == "true" || c.enforce == "enforce" || c.enforce == "true"
 			if wantEnc {
 				key := "plaintext-result-on-wire"
